@@ -97,7 +97,8 @@ def run_tlc(scratch, module, cfg, workers=None, timeout=600, extra=None, env=Non
     cmd += [module + ".tla"]
     e = dict(os.environ)
     jto = e.get("JAVA_TOOL_OPTIONS", "")
-    e["JAVA_TOOL_OPTIONS"] = (jto + " -Djava.io.tmpdir=" + tmpd + " -Xss64m").strip()
+    # bounded heap: several TLC runs and 16 worker processes share the machine (the JVM default is a quarter of the RAM each)
+    e["JAVA_TOOL_OPTIONS"] = (jto + " -Djava.io.tmpdir=" + tmpd + " -Xss64m -Xmx" + os.environ.get("VERIF_TLC_XMX", "4g")).strip()
     if env:
         e.update(env)
     res = TlcResult()
